@@ -76,7 +76,7 @@ def src_fan_out(pout="FIRST_AVAILABLE", blocking=True, iat=(2, 2, 2, 2, 2, 2), c
 
 
 def comb_split(recipe=(1, 2), piat=(8, 8), iiat=(2, 2, 2, 2, 2), cpd=(4,), spd=(2,), cb=True, spb=True, T=200,
-               spout="FIRST_AVAILABLE", two_ing=False, caps=(2, 4, 2, 3), iiat2=None, out_delay=0):
+               spout="FIRST_AVAILABLE", two_ing=False, caps=(2, 4, 2, 3), iiat2=None, out_delay=0, out2=None):
     nodes = [_n("source", blocking=True, iat=list(piat), kind="pallet"), _n("source", blocking=True, iat=list(iiat))]
     edges = [_e("buffer", 0, 2 + (1 if two_ing else 0), cap=caps[0]), _e("buffer", 1, 2 + (1 if two_ing else 0), cap=caps[1])]
     if two_ing:
@@ -86,18 +86,20 @@ def comb_split(recipe=(1, 2), piat=(8, 8), iiat=(2, 2, 2, 2, 2), cpd=(4,), spd=(
     nodes.append(_n("combiner", recipe=list(recipe), pd=list(cpd), blocking=cb))
     nodes.append(_n("splitter", pd=list(spd), blocking=spb, policy_out=spout))
     nodes += [_n("sink"), _n("sink")]
+    o2 = out2 or (caps[3], out_delay)          # (capacity, delay) of the splitter's second out-edge
     edges += [_e("buffer", c, c + 1, cap=caps[2]), _e("buffer", c + 1, c + 2, cap=caps[3], delay=out_delay),
-              _e("buffer", c + 1, c + 3, cap=caps[3], delay=out_delay)]
+              _e("buffer", c + 1, c + 3, cap=o2[0], delay=o2[1])]
     return {"Q": Q, "T": T, "family": "combiner-splitter", "expect": "valid", "drains": False, "nodes": nodes, "edges": edges}
 
 
-def pallet_split(mode="LIFO", piat=(1, 1, 1, 1, 1, 1), spd=(4,), cap=4, spb=True, T=160, spin="FIRST_AVAILABLE", delay=0):
+def pallet_split(mode="LIFO", piat=(1, 1, 1, 1, 1, 1), spd=(4,), cap=4, spb=True, T=160, spin="FIRST_AVAILABLE", delay=0,
+                 out_cap=3, out_delay=0, spout="FIRST_AVAILABLE"):
     """pallet source -> buffer (LIFO/FIFO) -> splitter -> buffer -> sink: the splitter reserves the next pallet
     and holds the granted token while its single worker is busy"""
     return {"Q": Q, "T": T, "family": "S(pallet)-B-Sp-B-K", "expect": "valid", "drains": True,
             "nodes": [_n("source", blocking=True, iat=list(piat), kind="pallet"),
-                      _n("splitter", pd=list(spd), blocking=spb, policy_in=spin), _n("sink")],
-            "edges": [_e("buffer", 0, 1, cap=cap, mode=mode, delay=delay), _e("buffer", 1, 2, cap=3)]}
+                      _n("splitter", pd=list(spd), blocking=spb, policy_in=spin, policy_out=spout), _n("sink")],
+            "edges": [_e("buffer", 0, 1, cap=cap, mode=mode, delay=delay), _e("buffer", 1, 2, cap=out_cap, delay=out_delay)]}
 
 
 def fleet_mid(iat1=(2, 2, 2, 2, 2, 2, 2, 2), iat2=(2, 2, 2, 2, 2, 2, 2, 2), wc=2, pd=(2,), fcap=3, fdelay=8, transit=1, pd2=(1,),
@@ -213,6 +215,15 @@ def families(tier):
     for spb, spout, cap3 in itertools.product([True, False], ["FIRST_AVAILABLE", "ROUND_ROBIN", 1], [1, 2]):
         C.append(comb_split(recipe=(1, 4), piat=(4, 4, 4), iiat=(1,) * 12, cpd=(2,), spd=(1,), spb=spb, spout=spout,
                             caps=(2, 6, 2, cap3), out_delay=16))
+    # odd pallet sizes: with ROUND_ROBIN over two out-edges the pallet itself goes to the other edge than the last item
+    for spb, n in itertools.product([True, False], [3, 5]):
+        C.append(comb_split(recipe=(1, n), piat=(4, 4, 4), iiat=(1,) * 15, cpd=(1,), spd=(1,), spb=spb, spout="ROUND_ROBIN",
+                            caps=(2, 6, 2, 1), out_delay=20))
+        # one small slow out-edge, one roomy fast one
+        C.append(comb_split(recipe=(1, n), piat=(4, 4, 4), iiat=(1,) * 15, cpd=(1,), spd=(1,), spb=spb, spout="ROUND_ROBIN",
+                            caps=(2, 6, 2, 1), out_delay=24, out2=(5, 0)))
+        C.append(comb_split(recipe=(1, n), piat=(4, 4, 4), iiat=(1,) * 15, cpd=(1,), spd=(1,), spb=spb, spout="FIRST_AVAILABLE",
+                            caps=(2, 6, 2, 1), out_delay=24, out2=(2, 6)))
     # one ingredient starves while the other one is waiting: the tokens of the gather-all batch fire out of list order
     C.append(comb_split(recipe=(1, 1, 1), two_ing=True, piat=(2, 2, 2, 2), iiat=(9, 9, 9, 9), iiat2=(1, 1, 1, 1)))
     C.append(comb_split(recipe=(1, 2, 1), two_ing=True, piat=(0, 6, 6), iiat=(7, 1, 7, 1, 7, 1), iiat2=(0, 0, 5, 5)))
@@ -231,6 +242,9 @@ def families(tier):
     for mode, spin, delay in itertools.product(["LIFO", "FIFO"], ["FIRST_AVAILABLE", "ROUND_ROBIN", 0], [0, 2]):
         C.append(pallet_split(mode=mode, spin=spin, delay=delay))
     C.append(pallet_split(mode="LIFO", piat=(0, 0, 0, 3, 0, 0), spd=(2, 5)))
+    # empty pallets into a slow, small out-edge: the splitter is blocked with the pallet itself
+    for spb, spout in itertools.product([True, False], ["FIRST_AVAILABLE", "ROUND_ROBIN", 0]):
+        C.append(pallet_split(mode="FIFO", piat=(2, 2, 2, 2, 2), spd=(1,), spb=spb, spout=spout, out_cap=1, out_delay=10, T=200))
     C.append(line_sbmbk(k1={"mode": "LIFO"}, d1=0, c1=3, iat=(0, 0, 0, 2, 0, 0), pd=(3,), wc=1))
     C.append(line_sbmbk(k1={"mode": "LIFO"}, d1=1, c1=3, iat=(1, 0, 1, 0, 1, 0), pd=(2, 4), wc=2, pin="ROUND_ROBIN"))
     # conveyors
@@ -318,7 +332,8 @@ def random_config(rng, i):
     elif kind == "psplit":
         c = pallet_split(mode=rng.choice(["LIFO", "FIFO"]), piat=tuple(rng.choice([0, 1, 2, 4]) for _ in range(rng.randint(3, 7))),
                          spd=(rng.choice([1, 3, 6]),), cap=rng.randint(2, 4), spb=rng.random() < 0.7, T=T,
-                         spin=rng.choice(["FIRST_AVAILABLE", "ROUND_ROBIN", 0]), delay=rng.choice([0, 0, 2]))
+                         spin=rng.choice(["FIRST_AVAILABLE", "ROUND_ROBIN", 0]), delay=rng.choice([0, 0, 2]),
+                         out_cap=rng.randint(1, 3), out_delay=rng.choice([0, 0, 6, 12]), spout=rng.choice(["FIRST_AVAILABLE", "ROUND_ROBIN", 0]))
     else:
         two = rng.random() < 0.4
         c = comb_split(recipe=(1, rng.randint(1, 4)) if not two else (1, rng.randint(1, 2), rng.randint(1, 2)), two_ing=two,
